@@ -343,21 +343,35 @@ structure Inv (s : CS) : Prop where
   last : ∀ h, s.lockHolder = some h → h ∈ s.wire.map (·.2.1) → (s.wire.map (·.2.1)).getLast? = some h
   idx : ∀ sid, nextIdx s.sendNext sid = (s.wire.filter (·.2.1 = sid)).length
   order : ∀ sid, (s.wire.filter (·.2.1 = sid)).map (·.2.2) = List.range (s.wire.filter (·.2.1 = sid)).length
+  /-- the link of every written packet is the one recorded for its send at the first packet -/
+  link : ∀ e ∈ s.wire, s.sendConn.find? (·.1 = e.2.1) = some (e.2.1, e.1)
+
+/-- all packets of one send are on one link -/
+theorem Inv.oneLink {s : CS} (hi : Inv s) :
+    ∀ e1 ∈ s.wire, ∀ e2 ∈ s.wire, e1.2.1 = e2.2.1 → e1.1 = e2.1 := by
+  intro e1 h1 e2 h2 he
+  have a := hi.link e1 h1
+  have b := hi.link e2 h2
+  rw [he, b] at a
+  simp only [Option.some.injEq, Prod.mk.injEq, true_and] at a
+  exact a.symm
 
 theorem Inv.of_eq {s t : CS} (hi : Inv s) (h1 : t.activeSends = s.activeSends)
     (h2 : t.doneSends = s.doneSends) (h3 : t.failedSends = s.failedSends)
-    (h4 : t.lockHolder = s.lockHolder) (h5 : t.sendNext = s.sendNext) (h6 : t.wire = s.wire) :
+    (h4 : t.lockHolder = s.lockHolder) (h5 : t.sendNext = s.sendNext) (h6 : t.wire = s.wire)
+    (h7 : t.sendConn = s.sendConn) :
     Inv t := by
-  refine ⟨?_, ?_, ?_, ?_, ?_, ?_⟩
+  refine ⟨?_, ?_, ?_, ?_, ?_, ?_, ?_⟩
   · rw [h6, h4, h2, h3]; exact hi.wireIds
   · rw [h1, h2]; exact hi.activeNotDone
   · rw [h6]; exact hi.contig
   · rw [h6, h4]; exact hi.last
   · rw [h6, h5]; exact hi.idx
   · rw [h6]; exact hi.order
+  · rw [h6, h7]; exact hi.link
 
 theorem inv_init : Inv init := by
-  refine ⟨?_, ?_, ?_, ?_, ?_, ?_⟩ <;> simp [init, contig_nil, nextIdx]
+  refine ⟨?_, ?_, ?_, ?_, ?_, ?_, ?_⟩ <;> simp [init, contig_nil, nextIdx]
 
 /-- every event the model allows preserves the invariant -/
 theorem stepCore_inv {s t : CS} {e : Ev} (h : stepCore s e = some t) (hi : Inv s) : Inv t := by
@@ -366,7 +380,7 @@ theorem stepCore_inv {s t : CS} {e : Ev} (h : stepCore s e = some t) (hi : Inv s
     simp only [stepCore, guard_eq_some] at h
     obtain ⟨hg, rfl⟩ := h
     simp at hg
-    refine ⟨hi.wireIds, ?_, hi.contig, hi.last, hi.idx, hi.order⟩
+    refine ⟨hi.wireIds, ?_, hi.contig, hi.last, hi.idx, hi.order, hi.link⟩
     intro x hx
     dsimp only at hx ⊢
     rcases List.mem_cons.1 hx with rfl | hx
@@ -385,7 +399,7 @@ theorem stepCore_inv {s t : CS} {e : Ev} (h : stepCore s e = some t) (hi : Inv s
         · exact absurd h1 (hi.activeNotDone sid hact)
         · exact absurd h1 hnf
       · exact Or.inl hm
-    refine ⟨?_, hi.activeNotDone, ?_, ?_, ?_, ?_⟩
+    refine ⟨?_, hi.activeNotDone, ?_, ?_, ?_, ?_, ?_⟩
     · intro x hx
       dsimp only at hx ⊢
       rw [List.map_append, List.mem_append] at hx
@@ -417,11 +431,37 @@ theorem stepCore_inv {s t : CS} {e : Ev} (h : stepCore s e = some t) (hi : Inv s
       · subst hs; simp [List.range_succ, hi.order, ← hi.idx, hidx]
       · have hs' : ¬ sid = sid' := fun e => hs e.symm
         simp [hs', hi.order]
+    · intro e he
+      dsimp only at he ⊢
+      rw [List.mem_append] at he
+      cases hf : s.sendConn.find? (·.1 = sid) with
+      | some p =>
+        have hp : p.1 = sid := by simpa using List.find?_some hf
+        simp only [linkOk, hf] at hconn
+        simp only [Option.isSome_some, if_true]
+        rcases he with he | he
+        · exact hi.link e he
+        · simp only [List.mem_singleton] at he
+          subst he
+          dsimp only
+          have hconn' : p.2 = c := by simpa using hconn
+          rw [hf, ← hp, ← hconn']
+      | none =>
+        simp only [Option.isSome_none, Bool.false_eq_true, if_false]
+        rcases he with he | he
+        · have hl := hi.link e he
+          rw [List.find?_cons]
+          by_cases hes : sid = e.2.1
+          · rw [← hes, hf] at hl; cases hl
+          · simp only [hes, decide_false]; exact hl
+        · simp only [List.mem_singleton] at he
+          subst he
+          simp
   | writeFail c sid =>
     simp only [stepCore, guard_eq_some] at h
     obtain ⟨hg, rfl⟩ := h
     simp at hg
-    refine ⟨?_, hi.activeNotDone, hi.contig, ?_, hi.idx, hi.order⟩
+    refine ⟨?_, hi.activeNotDone, hi.contig, ?_, hi.idx, hi.order, hi.link⟩
     · intro x hx
       dsimp only at hx ⊢
       rcases hi.wireIds x hx with h1 | h1 | h1
@@ -435,7 +475,7 @@ theorem stepCore_inv {s t : CS} {e : Ev} (h : stepCore s e = some t) (hi : Inv s
     split at h
     · next sid hl =>
       cases h
-      refine ⟨?_, hi.activeNotDone, hi.contig, ?_, hi.idx, hi.order⟩
+      refine ⟨?_, hi.activeNotDone, hi.contig, ?_, hi.idx, hi.order, hi.link⟩
       · intro x hx
         dsimp only at hx ⊢
         rcases hi.wireIds x hx with h1 | h1 | h1
@@ -448,7 +488,7 @@ theorem stepCore_inv {s t : CS} {e : Ev} (h : stepCore s e = some t) (hi : Inv s
   | sendReturn sid =>
     simp only [stepCore, guard_eq_some] at h
     obtain ⟨hg, rfl⟩ := h
-    refine ⟨?_, ?_, hi.contig, ?_, hi.idx, hi.order⟩
+    refine ⟨?_, ?_, hi.contig, ?_, hi.idx, hi.order, hi.link⟩
     · intro x hx
       dsimp only at hx ⊢
       rcases hi.wireIds x hx with h1 | h1 | h1
@@ -474,13 +514,13 @@ theorem stepCore_inv {s t : CS} {e : Ev} (h : stepCore s e = some t) (hi : Inv s
     repeat' split at h
     all_goals try rw [guard_eq_some] at h
     all_goals first
-      | (obtain ⟨-, rfl⟩ := h; exact hi.of_eq rfl rfl rfl rfl rfl rfl)
-      | (cases h; exact hi.of_eq rfl rfl rfl rfl rfl rfl)
+      | (obtain ⟨-, rfl⟩ := h; exact hi.of_eq rfl rfl rfl rfl rfl rfl rfl)
+      | (cases h; exact hi.of_eq rfl rfl rfl rfl rfl rfl rfl)
       | cases h
 
 theorem step_inv {s s' : CS} {e : Ev} (h : step s e = some s') (hi : Inv s) : Inv s' := by
   obtain ⟨t, ht, rfl⟩ := step_eq_some.1 h
-  exact (stepCore_inv ht hi).of_eq rfl rfl rfl rfl rfl rfl
+  exact (stepCore_inv ht hi).of_eq rfl rfl rfl rfl rfl rfl rfl
 
 theorem runTrace_inv (evs : List Ev) {s0 s : CS} (h : runTrace s0 evs = some s) (hi : Inv s0) :
     Inv s := by
@@ -514,12 +554,25 @@ theorem step_sendBad {s s' : CS} {sid : Nat} (h : step s (.sendBad sid) = some s
   rfl
 
 theorem step_writeFail {s s' : CS} {c sid : Nat} (h : step s (.writeFail c sid) = some s')
-    (hst : s.st = .connected) :
+    (hst : s.st = .connected) (hc : s.conn = some c) :
     s'.faults > 0 ∧ s'.lockHolder = none ∧ (step s' (.status .disconnected)).isSome = true := by
   obtain ⟨t, ht, rfl⟩ := step_eq_some.1 h
   simp only [stepCore, guard_eq_some] at ht
   obtain ⟨-, rfl⟩ := ht
-  refine ⟨Nat.succ_pos _, rfl, ?_⟩
-  simp [step, stepCore, guard, hst]
+  refine ⟨?_, rfl, ?_⟩
+  · show 0 < (if s.conn = some c then s.faults + 1 else s.faults)
+    rw [if_pos hc]; exact Nat.succ_pos _
+  · simp [step, stepCore, guard, hst, hc]
+
+/-- a write failure on a link that is not the current one: no fault, state and link unchanged, lock released -/
+theorem step_writeFail_stale {s s' : CS} {c sid : Nat} (h : step s (.writeFail c sid) = some s')
+    (hc : s.conn ≠ some c) :
+    s'.faults = s.faults ∧ s'.st = s.st ∧ s'.conn = s.conn ∧ s'.lockHolder = none := by
+  obtain ⟨t, ht, rfl⟩ := step_eq_some.1 h
+  simp only [stepCore, guard_eq_some] at ht
+  obtain ⟨-, rfl⟩ := ht
+  refine ⟨?_, rfl, rfl, rfl⟩
+  show (if s.conn = some c then s.faults + 1 else s.faults) = s.faults
+  rw [if_neg hc]
 
 end N2k.Client
